@@ -199,6 +199,13 @@ class IxWorld(object):
             # writer's add_field / remove_field may be left in it)
             if s.up_to_date() and sorted(self.ix.schema.names()) != sorted(s.schema.names()):
                 n = -1
+            # the index object's own counters are those of the last commit
+            if s.up_to_date():
+                for h in (self.ix, self.ix2):
+                    if h is not None and (h.doc_count() != len(docs) or h.doc_count_all() != rd.doc_count_all()
+                                          or h.is_empty() != (rd.doc_count_all() == 0 and len(docs) == 0)
+                                          or h.latest_generation() != s.reader().generation()):
+                        n = -1
             # ... and a searcher keeps the schema of its own generation whatever is committed later
             names = sorted(s.schema.names())
             if getattr(s, "_verif_schema_names", names) != names:
